@@ -152,7 +152,7 @@ def _impl_worker(case):
     signal.alarm(CASE_TIMEOUT)
     try:
         with contextlib.redirect_stdout(io.StringIO()):
-            return impl.run_case(case)
+            return impl.run_multi(case) if 'objects' in case else impl.run_case(case)
     except _Timeout:
         return {'setup': {'status': 'crash', 'kind': 'Timeout', 'msg': 'no result within %d s' % CASE_TIMEOUT}, 'calls': []}
     except MemoryError:
